@@ -16,8 +16,8 @@ CLAIMS["C09"] = dict(
    note="Trusted: rustc MIR, zfacts, regex-syntax/regex-automata, oracle transcriptions (cross-checked each run). Assumes regex and u32::from_str behave as documented.",
    ref="4/C09")
 CLAIMS["C18"] = dict(
-   technique="cross-language table agreement: Python ast extraction vs clap option tables read from derive-generated MIR (name, arity, value type, value domain), plus statement-shape rules on the two helper functions",
-   text="Decides, for every keyword of the four Python functions (a finite set, enumerated completely), that the emitted flag is an option of that sub-command carrying the keyword's name, with matching arity, integer typing and a Literal domain contained in the option's accepted values; that each keyword is used exactly once; and that _extend_args / _run_zerv_command have the statement shape that yields 'None/False add nothing', 'returns stripped stdout', 'raises on non-zero exit'. The Rust suite never looks at the Python file, and nothing is executed here either.",
+   technique="cross-language table agreement: Python ast extraction vs clap option tables read from derive-generated MIR (name, arity, value type, value domain), plus abstract interpretation of _extend_args over the value classes None/False/True/0/int/''/str and AST path enumeration of _run_zerv_command (the file is parsed, never imported)",
+   text="Decides, for every keyword of the four Python functions (a finite set, enumerated completely), that the emitted flag is an option of that sub-command carrying the keyword's name, with matching arity, integer typing and a Literal domain contained in the option's accepted values; that each keyword is used exactly once; and that _extend_args computes 'None/False add nothing, True adds the flag, any other value (0 and the empty string included) adds the flag and str(value)' while _run_zerv_command returns result.stdout.strip() only on paths with returncode == 0 and raises on the others, however the two helpers are written. The Rust suite never looks at the Python file, and nothing is executed here either.",
    note="Trusted: rustc MIR of clap's derive expansion, python's ast, clap/subprocess semantics as documented. Not decided: that the spawned binary is the one built from /repo.",
    ref="4/C18")
 CLAIMS["C14"] = dict(
@@ -128,7 +128,7 @@ def main():
         ],
         "checks": checks,
         "not_applicable": na,
-        "notes": "Family: static analysis only. Every check re-derives its facts from /repo's working tree (content-hashed cache). Exit 2 = machinery broken (no VIOLATION line).",
+        "notes": "Family: static analysis only. Every check re-derives its facts from /repo's working tree (content-hashed cache). A violation is always a positively identified construct; a code shape a rule does not recognise gives a NOT-DECIDED line and is listed under coverage.undecided in the evidence (never an alarm). The thorough tier additionally asserts, on scratch copies, that every seeded property-breaking change is reported and every behaviour-preserving refactoring under fixtures/neutral leaves the check silent. Exit 2 = machinery broken (no VIOLATION line).",
     }
     json.dump(m, open(os.path.join(V, "MANIFEST.json"), "w"), indent=1)
     print("checks:", [c["property_id"] for c in checks], "n/a:", len(na))
